@@ -33,14 +33,14 @@ package store
 //@   effect $CacheDropped := $CacheDropped || err == nil
 
 //@ func remove
-//@   property C07
+//@   property C07 C05
 //@   requires pathKind(path) == 0 ==> $CacheDropped
 //@   requires pathKind(path) == 1 ==> $LinkGone
 //@   effect $LinkGone := $LinkGone || (pathKind(path) == 0 && err == nil)
 //@   effect $Complete := false
 
 //@ func (*Store).removeODS
-//@   property C07
+//@   property C07 C05
 //@   requires s != nil
 //@   havoc $CacheDropped $LinkGone $Complete
 //@   ensures err == nil ==> $CacheDropped && $LinkGone && !$Complete
@@ -48,22 +48,25 @@ package store
 //@   effect $RmErr := err != nil
 
 //@ func (*Store).removeQ4
-//@   property C07
+//@   property C07 C05
 //@   requires s != nil
 //@   havoc $CacheDropped $Complete
 //@   ensures err == nil && !datahash.IsEmptyEDS() ==> !$Complete
+//@   ensures old($CacheDropped) ==> $CacheDropped
 //@   effect $RmErr := err != nil
 
 //@ func (*Store).removeODSQ4
-//@   property C07
+//@   property C07 C05
 //@   requires s != nil
 //@   havoc $CacheDropped $LinkGone $Complete $RmErr
-//@   ensures err == nil ==> $LinkGone
+//@   ensures err == nil ==> $LinkGone && $CacheDropped
 //@   ensures $RmErr <==> err != nil
 
 // "Partially written files are detected and replaced; storing the same block again always succeeds":
 // the recovery step gives up only when a removal or the re-creation itself failed - whatever the
 // validator reported about the leftover files (too short, unreadable header, ...) leads to replacement.
+// A file that fails validation is replaced only together with whatever accessor the caches hold for the
+// height: an accessor opened over the old file would keep serving it ($ValidOK: the validator accepted).
 //   $RmErr     - the last removal (removeODS / removeODSQ4) returned an error
 //   $CreateErr - the last file creation (file.CreateODS / file.CreateODSQ4) returned an error
 
@@ -76,23 +79,25 @@ package store
 //@   effect $Linked := err == nil
 
 //@ func (*Store).validateAndRecoverODSQ4
-//@   property C07
+//@   property C07 C05
 //@   requires s != nil && !$FdOpen
-//@   havoc $CacheDropped $LinkGone $Complete $FdOpen $RmErr $CreateErr
+//@   havoc $CacheDropped $LinkGone $Complete $FdOpen $RmErr $CreateErr $ValidOK
 //@   ensures err == nil ==> $Complete
+//@   ensures err == nil ==> $ValidOK || $CacheDropped
 //@   ensures err != nil ==> $RmErr || $CreateErr
 
 //@ func (*Store).validateAndRecoverODS
-//@   property C07
+//@   property C07 C05
 //@   requires s != nil
-//@   havoc $CacheDropped $LinkGone $Complete $RmErr $CreateErr
+//@   havoc $CacheDropped $LinkGone $Complete $RmErr $CreateErr $ValidOK
 //@   ensures err == nil ==> $Complete
+//@   ensures err == nil ==> $ValidOK || $CacheDropped
 //@   ensures err != nil ==> $RmErr || $CreateErr
 
 //@ func (*Store).createODSQ4File
 //@   property C07
 //@   noframe
-//@   havoc $Complete $CacheDropped $LinkGone $FdOpen $RmErr $CreateErr $Linked
+//@   havoc $Complete $CacheDropped $LinkGone $FdOpen $RmErr $CreateErr $Linked $ValidOK
 //@   requires s != nil && !$Complete && !$FdOpen
 //@   callpre Store).linkHeight: $Complete
 //@   ensures err == nil ==> $Complete
@@ -101,7 +106,7 @@ package store
 //@ func (*Store).createODSFile
 //@   property C07
 //@   noframe
-//@   havoc $Complete $CacheDropped $LinkGone $FdOpen $RmErr $CreateErr $Linked
+//@   havoc $Complete $CacheDropped $LinkGone $FdOpen $RmErr $CreateErr $Linked $ValidOK
 //@   requires s != nil && !$Complete && !$FdOpen
 //@   callpre Store).linkHeight: $Complete
 //@   ensures err == nil ==> $Complete
@@ -118,7 +123,7 @@ package store
 //@ func (*Store).put
 //@   property C07 C15
 //@   noframe
-//@   havoc $Complete $CacheDropped $LinkGone $FdOpen $RmErr $CreateErr $Linked $AccOpen
+//@   havoc $Complete $CacheDropped $LinkGone $FdOpen $RmErr $CreateErr $Linked $AccOpen $ValidOK
 //@   requires s != nil && roots != nil && !$Complete && !$FdOpen && $EmptyComplete
 //@   callpre Store).linkHeight: $arg1.IsEmptyEDS()
 //@   callpre Store).createODSQ4File: writeQ4 && $arg3 == height && $arg2 == roots && $arg1 == square
@@ -138,3 +143,15 @@ package store
 //@   requires s != nil && roots != nil && !$Complete && !$FdOpen && $EmptyComplete
 //@   callpre Store).put: !$arg5 && $arg3 == height && $arg2 == roots && $arg4 == square
 //@   ensures err == nil ==> $Complete || share.DataHash(dahHash(deref(roots))).IsEmptyEDS()
+
+// The empty block's files are rewritten from scratch every time the store is opened - whatever is found
+// there (possibly the leftover of a crash during the very first start) is removed first - and success
+// means the fresh pair was written completely: this is what $EmptyComplete stands for.
+//@ func (*Store).populateEmptyFile
+//@   property C07
+//@   noframe
+// (heights are linked to the empty block's file by symlink, never by hard link: nothing to unlink first)
+//@   requires s != nil && !$FdOpen && !$Complete && $LinkGone
+//@   havoc $Complete $CreateErr $LinkGone $CacheDropped $FdOpen
+//@   callpre store.remove: pathKind($arg0) == 1 || pathKind($arg0) == 2
+//@   ensures err == nil ==> $Complete
